@@ -713,6 +713,14 @@ func NewExocoreApp(
 		app.EpochsKeeper,
 	)
 
+	// the delegation hooks must be set before the precompiles are created: the precompiles
+	// receive the delegation keeper by value, and a copy taken before SetHooks has no hooks,
+	// so undelegations arriving through the precompile would never be held by the dogfood
+	// module for the unbonding epochs.
+	(&app.DelegationKeeper).SetHooks(
+		app.StakingKeeper.DelegationHooks(),
+	)
+
 	app.EvmKeeper.WithPrecompiles(
 		evmkeeper.AvailablePrecompiles(
 			app.AuthzKeeper,
@@ -790,10 +798,6 @@ func NewExocoreApp(
 	// set the hooks at the end, after all modules are instantiated.
 	(&app.OperatorKeeper).SetHooks(
 		app.StakingKeeper.OperatorHooks(),
-	)
-
-	(&app.DelegationKeeper).SetHooks(
-		app.StakingKeeper.DelegationHooks(),
 	)
 
 	(&app.EpochsKeeper).SetHooks(
